@@ -222,7 +222,7 @@ func runCheck(args []string) {
 	writeEvidence(evPath, *prop, *tier, seed, e, results, ps, time.Since(t0).Seconds(), violations, unclaimed, known)
 	extra := ""
 	if probesOK > 0 {
-		extra = fmt.Sprintf(" (%d call-site consistency probes passed)", probesOK)
+		extra = fmt.Sprintf(" (%d call-site consistency probes, none contradictory)", probesOK)
 	}
 	if boundedRuns > 0 {
 		extra += fmt.Sprintf(" (+%d bounded run(s), not counted as proved)", boundedRuns)
@@ -349,7 +349,7 @@ func writeEvidence(path, prop, tier string, seed int, e *Engine, results []*Func
 		"not_covered":           ps.NotCovered,
 		"bounded":               ps.Bounded,
 		"bounded_runs_not_counted_as_proved": boundedObs,
-		"call_site_consistency_probes": fmt.Sprintf("%d of %d passed (the path is satisfiable before a callee's postconditions are assumed and still satisfiable after)", probePassed, probeTotal),
+		"call_site_consistency_probes": fmt.Sprintf("%d of %d not contradictory (a probe asks: satisfiable before a callee's postconditions are assumed, still satisfiable after; probes not decided within 3 s are not pursued)", probePassed, probeTotal),
 		"integer_model":         "every Go integer is a bit-vector of its width (wrap-around, signedness, shifts modelled exactly)",
 	}
 	if len(samples) == 0 {
